@@ -794,6 +794,7 @@ Fixpoint byval_refs (s : schema) {struct s} : list ustring :=
       match classify ty fmt enum cst nv sv ik items ai mni mxi uq props req ap mnp mxp allo anyo oneo no ref dflt title with
       | Some (_, KRef r) => [r]
       | Some (_, KStruct _) => flat_map (fun kv => byval_refs (snd kv)) props
+      | Some (_, KVec (CArr _)) => flat_map byval_refs items      (* [T; n] contains T by value (cycles.rs:169) *)
       | _ => []
       end
   end.
